@@ -160,7 +160,8 @@ def evaluate(node, labels: dict):
             raise Undefined('float-ambiguous quotient')
         return v, True
     v = {'+': a + b, '-': a - b, '*': a * b}[op]
-    if t and not _float_exact(v):
+    if t and not (_float_exact(v) and _float_exact(a) and _float_exact(b)):
+        # below a real quotient an implementation may compute in binary floating point: the other operand is converted too
         raise Undefined('float-ambiguous intermediate')
     return v, t
 
